@@ -78,7 +78,7 @@ class Func:
         return f"bitstring/{self.mod}.py"
 
     def loc(self, node=None):
-        return f"{self.file()}:{(node or self.node).lineno}"
+        return f"{self.file()}:{getattr(node or self.node, 'lineno', self.node.lineno)}"
 
 
 class ClassInfo:
